@@ -74,7 +74,8 @@ type C09W struct {
 	FailAt  int
 	Forever bool
 	Half    bool
-	FailAt2 int `json:",omitempty"` // deviation bound 2: a second sink call that fails once (index in the run with the first fault)
+	Retry   bool `json:",omitempty"` // enumerated histories: a call that returned an error is issued once more (Write: with the bytes not yet accepted)
+	FailAt2 int  `json:",omitempty"` // deviation bound 2: a second sink call that fails once (index in the run with the first fault)
 }
 
 type C09R struct {
@@ -198,12 +199,20 @@ func c09Hist(p C09W) c09Run {
 			switch op {
 			case "f":
 				if flush != nil {
-					rec("Flush", 0, 0, flush())
+					err := flush()
+					rec("Flush", 0, 0, err)
+					if err != nil && p.Retry {
+						rec("Flush", 0, 0, flush())
+					}
 				}
 			case "c":
 				closes++
 				if closes == 1 {
-					rec("Close", 0, 0, w.Close())
+					err := w.Close()
+					rec("Close", 0, 0, err)
+					if err != nil && p.Retry {
+						rec("Close2", 0, 0, w.Close())
+					}
 				} else {
 					rec("Close2", 0, 0, w.Close())
 				}
@@ -212,6 +221,10 @@ func c09Hist(p C09W) c09Run {
 				res.input = append(res.input, q...)
 				n, err := w.Write(q)
 				rec("Write", n, len(q), err)
+				if err != nil && p.Retry && n >= 0 && n <= len(q) {
+					n2, err2 := w.Write(q[n:])
+					rec("Write", n2, len(q)-n, err2)
+				}
 			}
 		}
 	})
@@ -394,6 +407,9 @@ func c09WriterJudge(r *core.Run, p C09W, base c09Run) {
 	}
 	if p.FailAt2 > 0 {
 		mode += "+second-fault"
+	}
+	if p.Retry {
+		mode += "+retry"
 	}
 	wname := p.Writer
 	if strings.HasPrefix(wname, "H|") {
@@ -628,6 +644,11 @@ func runC09(r *core.Run) {
 					}
 					jobs = append(jobs, job{w: &C09W{Writer: h, FailAt: k, Forever: forever, Half: half}, base: &b})
 					nh++
+					if !forever {
+						// the caller retries the call that failed (transient fault)
+						jobs = append(jobs, job{w: &C09W{Writer: h, FailAt: k, Half: half, Retry: true}, base: &b})
+						nh++
+					}
 				}
 			}
 		}
